@@ -166,8 +166,13 @@ class Ctx:
             "wall_s": round(time.time() - self.t0, 2),
             "violations": len(self.violations),
         }
-        os.makedirs(os.path.join(VERIF, "evidence"), exist_ok=True)
-        path = os.path.join(VERIF, "evidence", "%s.json" % self.pid)
+        # evidence describes /repo; a run redirected to a scratch worktree (VERIF_REPO, seed / mutation testing only)
+        # writes next to the cache instead, so that it can never pass for a description of the unchanged tree
+        evdir = os.path.join(VERIF, "evidence")
+        if os.path.realpath(os.environ.get("VERIF_REPO", "/repo")) != os.path.realpath("/repo"):
+            evdir = os.path.join(VERIF, ".cache", "evidence-scratch")
+        os.makedirs(evdir, exist_ok=True)
+        path = os.path.join(evdir, "%s.json" % self.pid)
         tmp = path + ".tmp%d" % os.getpid()
         with open(tmp, "w") as f:
             f.write(jdump(ev, indent=1))
